@@ -616,6 +616,9 @@ def run(ck):
     driver = ck.lean_exe("c38driver", "TfelVerif/C38/Driver.lean")
     res = ck.lean(PROPS, PROPS)
     ck.lean_violations(res)
+    if ck.tier == "thorough" and res.ok:
+        for m, log in ck.leanchecker(PROPS):
+            ck.violation("leanchecker:" + m, "leanchecker rejects " + m, {"log": log}, False)
 
     # ---- (a) text level
     q = "".join("gen %s\ngenc %s\n" % (d.enc(), d.enc()) for d in descs)
